@@ -651,6 +651,9 @@ def gen_request(r, scratch, idx, kind=None):
   elif kind == 'imports':
     root = os.path.join(scratch, 'imp%d' % idx)
     text, preds, more_mains = gen_import_tree(r, root)
+    if more_mains == 'two_roots':
+      more_mains = []
+      root = [os.path.join(root, 'R0'), os.path.join(root, 'R1')]      # the caller's list of roots
   elif kind == 'incant' and r.random() < 0.5:
     # the experimental syntax in use: several user-defined infix operators mixed in one
     # expression without parentheses (their relative precedence is part of the parse)
@@ -730,7 +733,7 @@ def gen_import_tree(r, root):
   """A small import graph on disk: chains, diamonds, equal base names in two directories,
   aliases, and a file defining both P and <Prefix>_P."""
   files = {}
-  shape = r.choice(['chain', 'diamond', 'samebase', 'prefix_clash', 'alias', 'prefix_clash', 'two_mains', 'two_mains'])
+  shape = r.choice(['chain', 'diamond', 'samebase', 'prefix_clash', 'alias', 'prefix_clash', 'two_mains', 'two_mains', 'two_roots'])
   eng = '@Engine("sqlite");\n'
   if shape == 'chain':
     files['lib/c.l'] = 'Base(1); Base(2); Base(3);\nC(x) :- Base(x), x > 1;\n'
@@ -741,6 +744,13 @@ def gen_import_tree(r, root):
     files['lib/l.l'] = 'import lib.base.Helper;\nL(x) :- Helper(x), x > 1;\n'
     files['lib/r.l'] = 'import lib.base.Helper;\nR(x * 2) :- Helper(x);\n'
     main = eng + 'import lib.l.L;\nimport lib.r.R;\nT(x, y) :- L(x), R(y);\n'
+  elif shape == 'two_roots':
+    # import_root given as a LIST of roots: lib.b exists under both (the first one wins),
+    # lib.c only under the second
+    files['R0/lib/b.l'] = 'B("b_of_first_root");\n'
+    files['R1/lib/b.l'] = 'B("b_of_second_root");\n'
+    files['R1/lib/c.l'] = 'C("c");\n'
+    main = eng + 'import lib.c.C;\nimport lib.b.B;\nT(x, y) :- C(x), B(y);\n'
   elif shape == 'two_mains':
     # two different main programs over ONE import tree: the first imports lib.common itself and
     # through lib.stats, the second reaches lib.common through lib.stats only
@@ -770,6 +780,8 @@ def gen_import_tree(r, root):
   preds = ['T'] + (['U'] if shape == 'alias' else [])
   if shape == 'two_mains':
     return main, preds, [(extra_main, ['T', 'U'])]
+  if shape == 'two_roots':
+    return main, preds, 'two_roots'
   return main, preds, []
 
 
@@ -1035,13 +1047,13 @@ def materialise(case, scratch):
   for i, q in enumerate(case['programs']):
     q = dict(q)
     if q.get('files'):
-      root = roots.setdefault(q.get('root') or i, os.path.join(scratch, 'imp-replay-%d' % i))
+      root = roots.setdefault(json.dumps(q.get('root')) if q.get('root') else i, os.path.join(scratch, 'imp-replay-%d' % i))
       for rel, txt in q['files'].items():
         path = os.path.join(root, rel)
         os.makedirs(os.path.dirname(path), exist_ok=True)
         with open(path, 'w') as f:
           f.write(txt)
-      q['root'] = root
+      q['root'] = [os.path.join(root, x) for x in q['root_list']] if q.get('root_list') else root
     pool.append(q)
   return pool
 
@@ -1058,11 +1070,14 @@ def freeze_programs(pool, used):
       q2['file'] = q['file']
     if q['root']:
       files = {}
-      for dirpath, _, names in os.walk(q['root']):
+      base = os.path.dirname(q['root'][0]) if isinstance(q['root'], list) else q['root']
+      for dirpath, _, names in os.walk(base):
         for n in names:
           p = os.path.join(dirpath, n)
-          files[os.path.relpath(p, q['root'])] = open(p).read()
+          files[os.path.relpath(p, base)] = open(p).read()
       q2['files'] = files
+      if isinstance(q['root'], list):
+        q2['root_list'] = [os.path.basename(x) for x in q['root']]
     out.append(q2)
   return out
 
